@@ -259,13 +259,113 @@ def command_level(ctx):
                                      "class": classify(key, hist)})
 
 
+# naming keys: their effective value shows in the service file name and in the commands of the units that REFER to the unit
+# (target type, key, kind, values, how a container refers to the target)
+NAMING = [
+    ("container", "ContainerName", "single", ["c-one", "c-two"], "Network=t.container"),
+    ("container", "ServiceName", "single", ["svc-one", "svc-two"], "Network=t.container"),
+    ("volume", "VolumeName", "single", ["v-one", "v-two"], "Volume=t.volume:/data"),
+    ("volume", "ServiceName", "single", ["vsvc-one", "vsvc-two"], "Volume=t.volume:/data"),
+    ("network", "NetworkName", "single", ["n-one", "n-two"], "Network=t.network"),
+    ("network", "ServiceName", "single", ["nsvc-one", "nsvc-two"], "Network=t.network"),
+    ("image", "ImageTag", "single", ["localhost/i-one", "localhost/i-two"], "Image=t.image"),
+    ("image", "ServiceName", "single", ["isvc-one", "isvc-two"], "Image=t.image"),
+    ("build", "ImageTag", "list", ["localhost/b-one", "localhost/b-two", "localhost/b-three"], "Image=t.build"),
+    ("build", "ServiceName", "single", ["bsvc-one", "bsvc-two"], "Image=t.build"),
+    ("pod", "PodName", "single", ["p-one", "p-two"], "Pod=t.pod"),
+    ("pod", "ServiceName", "single", ["psvc-one", "psvc-two"], "Pod=t.pod"),
+]
+
+
+def names_view(recs):
+    """what the naming keys decide: per file the service file name, every Exec* argv and the [Unit] dependencies"""
+    view = []
+    for r in sorted(recs, key=lambda r: r.get("path", b"")):
+        if not r.get("ok"):
+            view.append((r.get("path"), "ERR", r.get("err"))); continue
+        ex = [(k, tuple(canon_exec(v) or ["<unsplittable>"])) for name, es in r["sections"] if name == "Service" for k, v in es if k.startswith("Exec")]
+        dep = [(k, v) for name, es in r["sections"] if name == "Unit" for k, v in es if k in ("Requires", "After", "BindsTo", "Wants", "Before")]
+        view.append((r.get("path"), r.get("svc"), tuple(ex), tuple(dep)))
+    return view
+
+
+def names_level(ctx):
+    """metamorphic oracle for the naming keys: a history and its effective history give the same service file names, the same
+    commands in the referring unit and the same dependencies -- in-process, and end to end with the history spread over drop-ins"""
+    import docs
+    rng = ctx.rng
+    work = []
+    for _ in range(ctx.volume(300, 4000)):
+        typ, key, kind, vals, ref_line = rng.choice(NAMING)
+        n = rng.choice([1, 2, 3, 3, 4])
+        hist = [rng.choice(vals + [""]) for _ in range(n)]
+        eff = effective_history(kind, hist)
+        sec, base = docs.TYPES[typ][0], docs.MINIMAL[typ]
+        if typ == "build" and key == "ImageTag":
+            base = "File=/Containerfile\n"          # the history is the unit's only ImageTag
+        parts = rng.choice([1, 2, 3])
+        cuts = sorted(rng.randint(0, len(hist)) for _ in range(parts - 1))
+        chunks, prev = [], 0
+        for c in cuts + [len(hist)]:
+            chunks.append(hist[prev:c]); prev = c
+        main = "[%s]\n%s" % (sec, base) + "".join("%s=%s\n" % (key, v) for v in chunks[0])
+        drops = ["[%s]\n" % sec + "".join("%s=%s\n" % (key, v) for v in ch) for ch in chunks[1:]]
+        ref = "[%s]\n%s" % (sec, base) + "".join("%s=%s\n" % (key, v) for v in eff)
+        referrer = "[Container]\n" + ("" if ref_line.startswith("Image=") else "Image=img\n") + ref_line + "\n"
+        work.append((typ, key, hist, main, drops, ref, referrer))
+    cases = []
+    for typ, key, hist, main, drops, ref, referrer in work:
+        cases.append(case_line("convert", "0", "/u/t.%s" % typ, main + "".join(drops), "/u/user.container", referrer))
+        cases.append(case_line("convert", "0", "/u/t.%s" % typ, ref, "/u/user.container", referrer))
+    outs = vlib.run_impl(cases)
+    for i, (typ, key, hist, main, drops, ref, referrer) in enumerate(work):
+        ctx.evaluations += 1
+        ctx.count("names:%s:%s" % (typ, key))
+        if len(hist) > 1:
+            ctx.nontrivial.add(("name", typ, key, tuple(hist)))
+        va, vb = names_view(vlib.parse_convert(outs[2 * i])), names_view(vlib.parse_convert(outs[2 * i + 1]))
+        if va != vb:
+            diff = [(a, b) for a, b in zip(va, vb) if a != b][:1]
+            ctx.failures.append({"op": "names", "key": "%s:%s" % (typ, key), "history": hist, "case_hex": cases[2 * i], "ref_hex": cases[2 * i + 1],
+                                 "what": "naming history %s of [%s] %s and its effective value differ in names or in the referring unit: %s" % (hist, typ, key, diff),
+                                 "class": None})
+    # end to end: the history spread over the main file and real drop-in files
+    sample = work[: ctx.volume(60, 600)]
+    with e2e.Box() as box:
+        for j, (typ, key, hist, main, drops, ref, referrer) in enumerate(sample):
+            views = []
+            for variant, (mtext, dtexts) in (("h", (main, drops)), ("r", (ref, []))):
+                root = box.path("n%d%s" % (j, variant))
+                files = {"u/t.%s" % typ: mtext, "u/user.container": referrer}
+                for d, txt in enumerate(dtexts):
+                    files["u/t.%s.d/%02d-x.conf" % (typ, d)] = txt
+                e2e.make_tree(root, files)
+                rc, out, err = e2e.run_quadlet([os.path.join(root, "u")], os.path.join(root, "out"), dry_run=True)
+                svcs = e2e.parse_dry_run(out)
+                v = []
+                for pth in sorted(svcs):
+                    lines = svcs[pth].split("\n")
+                    ex = [(l.split("=", 1)[0], tuple(canon_exec(l.split("=", 1)[1]) or [])) for l in lines if l.startswith("Exec")]
+                    dep = [l for l in lines if l.split("=", 1)[0] in ("Requires", "After", "BindsTo", "Wants", "Before")]
+                    v.append((os.path.basename(pth), tuple(ex), tuple(dep)))
+                views.append((rc, v))
+            ctx.evaluations += 1
+            ctx.count("e2e_names")
+            if views[0] != views[1]:
+                diff = [(a, b) for a, b in zip(views[0][1], views[1][1]) if a != b][:1] or [(views[0][0], [x[0] for x in views[0][1]], views[1][0], [x[0] for x in views[1][1]])]
+                ctx.failures.append({"op": "e2e_names", "key": "%s:%s" % (typ, key), "history": hist, "main": main, "dropins": drops,
+                                     "what": "with drop-in files: naming history %s of [%s] %s (main %r, drop-ins %r) and its effective value differ: %s" % (hist, typ, key, main, drops, diff),
+                                     "class": None})
+
+
 def run(ctx):
     ctx.rule = ("assignment histories (1-6 assignments incl. empty ones) of 20 container keys and 27 keys of the other six unit types, of all kinds (single, bool, list, word list, name=value), "
                 "spread over the main file, repeated sections and 0-3 drop-ins; look-up level compared with the model and with the rule; command level by the metamorphic "
-                "oracle 'history == its effective history' on the implementation, in-process and end to end with real drop-in files; "
+                "oracle 'history == its effective history' on the implementation, in-process and end to end with real drop-in files; the naming keys (ContainerName, VolumeName, NetworkName, ImageTag, PodName, ServiceName of six types) are judged by the service file names and by the command and dependencies of a unit that refers to the named one; "
                 "non-trivial = history of >1 assignment (look-ups: containing an empty one); distinct = distinct (key, history)")
     lookup_level(ctx)
     command_level(ctx)
+    names_level(ctx)
     ctx.samples = [{"key": f.get("key"), "history": f.get("history")} for f in ctx.failures[:3]] + [{"example_history": ["a", "", "b c"], "effective": ["b c"]}]
     ctx.oblig("direct oracle: look-ups follow the rule set; the command for a history equals the command for its effective history",
               not ctx.failures, "%d failures" % len(ctx.failures))
